@@ -2,6 +2,9 @@ use crate::magic::{Function, FunctionRegistry, IntoFunction};
 use crate::objects::{TryIntoValue, Value};
 use crate::{functions, ExecutionError};
 use cel_parser::Expression;
+#[cfg(kani)]
+use crate::verif_map::HashMap;
+#[cfg(not(kani))]
 use std::collections::HashMap;
 
 /// Context is a collection of variables and functions that can be used
